@@ -17,6 +17,7 @@ equivalence modulo the fake-goal mechanism.  Python decides nothing.
 
 ./check C37 --selftest corrupts recorded fields one at a time and shows that the judge rejects.
 """
+import copy
 import itertools
 import os
 import traceback
@@ -57,9 +58,23 @@ class MAGen:
         self.p_quant = quant
         self.p_const = boolconst
         self.nagents = nagents
+        self.sibling = False  # sibling mode (see problem())
+        self.only = None  # sibling mode: the agent fluent names that may be referenced unqualified
 
-    def problem(self):
+    def problem(self, sibling=False):
+        """sibling=False: the agents' actions are generated independently.
+        sibling=True: name collisions BETWEEN agents.  The agents share most fluent names (the same Fluent
+        object in both), one agent's actions are written over the fluents both agents can name the same way
+        (shared agent fluents, environment fluents, Dot references) and the other agent gets, under the SAME
+        action names, near-copies of them (one effect retargeted / added / dropped, a condition or a
+        precondition changed, or the very same definition), so that compiled variants of different agents
+        coincide in everything but their owner; effect conditions are reused (also negated) inside an action;
+        and an agent may own an unconditional action that is literally one branch of the other agent's
+        conditional action, under a name a fresh-name generator would pick (act_0, act_1: the shape of a
+        problem that went through another compiler before)."""
         r = self.r
+        self.sibling = sibling
+        self.only = None
         T = "T"
         objs = ["o1", "o2"]
         D = {"name": "ma", "types": [{"name": T, "parent": ""}], "objects": [{"name": o, "type": T} for o in objs]}
@@ -91,7 +106,7 @@ class MAGen:
                 break
             name = "f%d" % i
             fl = mkfl(name)
-            owners = [a for a in agents if r.random() < 0.6] or [r.choice(agents)]
+            owners = [a for a in agents if r.random() < (0.85 if sibling else 0.6)] or [r.choice(agents)]
             first = True
             for a in owners:
                 if not first:
@@ -112,9 +127,12 @@ class MAGen:
         self.D = D
         # actions
         pool_names = ["act", "mv", "op"]
-        for a in agents:
-            for nm in r.sample(pool_names, r.choice([1, 2, 2])):
-                a["actions"].append(self.action(a, nm))
+        if sibling:
+            self.sibling_actions(agents, pool_names)
+        else:
+            for a in agents:
+                for nm in r.sample(pool_names, r.choice([1, 2, 2])):
+                    a["actions"].append(self.action(a, nm))
         # explicit initial values (override defaults)
         D["init"] = []
         for (ag, f, args) in self.ground_fluents():
@@ -161,6 +179,9 @@ class MAGen:
         for a in self.D["agents"]:
             for f in a["fluents"]:
                 if agent is not None and a["name"] == agent["name"]:
+                    if self.only is not None and f["name"] not in self.only:
+                        cands.append((a["name"], f))  # sibling mode: not nameable by the other agent -> Dot
+                        continue
                     cands.append(("", f))  # own fluent, unqualified
                     if r.random() < 0.15:
                         cands.append((a["name"], f))  # own fluent through Dot
@@ -217,8 +238,8 @@ class MAGen:
         pcond = 0.75 if self.comp == "cerm" else 0.35
         pre = [self.bexpr(agent, terms, r.choice([1, 2]), pdis=pdis) for _ in range(r.choice([0, 1, 1, 2]))]
         effs = []
-        targets = [("", f) for f in agent["fluents"]] + [("", f) for f in self.D["env"]]
-        for _ in range(r.choice([1, 2, 2, 3])):
+        targets = self.targets(agent)
+        for _ in range(r.choice([2, 2, 3, 3] if self.sibling else [1, 2, 2, 3])):
             _, f = r.choice(targets)
             tgt = {"name": f["name"], "args": [self.arg(terms) for _ in f["sig"]], "agent": ""}
             if f["type"]["k"] == "bool":
@@ -229,6 +250,8 @@ class MAGen:
             else:
                 val = self.arg(terms)
             cond = self.bexpr(agent, terms, r.choice([0, 1, 1, 2]), pdis=pdis) if r.random() < pcond else C(True)
+            if self.sibling:
+                cond = self.reuse_cond(cond, effs)
             if cond["op"] == "const":
                 cond = C(True)
             if f["type"]["k"] != "bool" and cond["op"] == "const" and any(
@@ -240,6 +263,143 @@ class MAGen:
                 e["c"] = C(True)
         return {"name": name, "kind": "inst", "params": params, "pre": pre, "effects": effs, "conds": [],
                 "dur": upj.NONE, "sim": False}
+
+    # ---- sibling mode: name collisions between agents ----------------------------------
+    def targets(self, agent):
+        own = [f for f in agent["fluents"] if self.only is None or f["name"] in self.only]
+        return [("", f) for f in own] + [("", f) for f in self.D["env"]]
+
+    @staticmethod
+    def neg(c):
+        return c["args"][0] if c["op"] == "not" else E("not", [c])
+
+    def reuse_cond(self, cond, effs):
+        """with some probability the condition of an earlier conditional effect of the same action, as it is
+        or negated (if x ... / if not x ...), instead of the freshly drawn one"""
+        r = self.r
+        prev = [e["c"] for e in effs if e["c"]["op"] != "const"]
+        if prev and cond["op"] != "const" and r.random() < 0.4:
+            c = copy.deepcopy(r.choice(prev))
+            return self.neg(c) if r.random() < 0.5 else c
+        return cond
+
+    def sibling_actions(self, agents, pool_names):
+        r = self.r
+        first, second = r.sample(agents, 2) if len(agents) > 1 else (agents[0], agents[0])
+        # the fluent names both agents declare (same name => same type and signature, see the fluent pool)
+        self.only = {f["name"] for f in first["fluents"]} & {f["name"] for f in second["fluents"]}
+        names = r.sample(pool_names, r.choice([1, 1, 2]))
+        base = [self.action(first, nm) for nm in names]
+        for b in base:
+            if not any(e["c"]["op"] != "const" for e in b["effects"]) and self.comp == "cerm" and r.random() < 0.7:
+                b["effects"][-1]["c"] = self.bexpr(first, self.terms_of(b), r.choice([0, 0, 1]), pdis=0.2)
+                if b["effects"][-1]["c"]["op"] == "const":
+                    b["effects"][-1]["c"] = C(True)
+        sibs = [self.mutated(b, second) for b in base if r.random() < 0.85]
+        if not sibs:
+            sibs = [self.mutated(base[0], second)]
+        # an unconditional action that is one branch of the other agent's conditional action, under a fresh-looking name
+        extra_first, extra_second = [], []
+        for b, owner_extra in [(x, extra_second) for x in base] + [(x, extra_first) for x in sibs]:
+            if r.random() < 0.3:
+                br = self.branch_of(b)
+                if br is not None and all(br["name"] != x["name"] for x in owner_extra):
+                    owner_extra.append(br)
+        # further, independent actions of the second agent (still over the commonly nameable fluents)
+        taken = {x["name"] for x in sibs + extra_second}
+        if r.random() < 0.3:
+            rest = [n for n in pool_names if n not in taken]
+            if rest:
+                sibs.append(self.action(second, r.choice(rest)))
+        first["actions"] += base + [x for x in extra_first if all(x["name"] != y["name"] for y in base)]
+        second["actions"] += sibs + [x for x in extra_second if all(x["name"] != y["name"] for y in sibs)]
+        for a in (first, second):
+            r.shuffle(a["actions"])
+
+    @staticmethod
+    def terms_of(act):
+        return [E("param", name=q["name"]) for q in act["params"]]
+
+    def mutated(self, base, agent):
+        """a near-copy of `base` (same name, same parameters) for `agent`"""
+        r = self.r
+        act = copy.deepcopy(base)
+        terms = self.terms_of(act)
+        pdis = 0.55 if self.comp == "dcrm" else 0.25
+        targets = self.targets(agent)
+        effs = act["effects"]
+
+        def fresh_target():
+            _, f = r.choice(targets)
+            return {"name": f["name"], "args": [self.arg(terms) for _ in f["sig"]], "agent": ""}
+
+        def a_cond():
+            prev = [e["c"] for e in effs if e["c"]["op"] != "const"]
+            x = r.random()
+            if prev and x < 0.4:
+                return copy.deepcopy(r.choice(prev))
+            if prev and x < 0.7:
+                return self.neg(copy.deepcopy(r.choice(prev)))
+            c = self.bexpr(agent, terms, r.choice([0, 0, 1]), pdis=pdis)
+            return C(True) if c["op"] == "const" else c
+
+        for _ in range(r.choice([1, 1, 1, 2])):
+            kind = r.choice(["same", "retarget", "retarget", "retarget", "value", "value", "addeff", "addeff", "addeff",
+                             "dropeff", "cond", "pre", "pre"])
+            ncond = sum(1 for e in effs if e["c"]["op"] != "const")
+            if kind == "retarget":
+                cands = [e for e in effs if e["c"]["op"] != "const"] or effs
+                r.choice(cands)["f"] = fresh_target()
+            elif kind == "value":
+                e = r.choice([e for e in effs if e["c"]["op"] != "const"] or effs)
+                e["v"] = C(not e["v"]["v"]["b"]) if e["v"]["op"] == "const" else C(r.random() < 0.5)
+            elif kind == "addeff":
+                c = a_cond() if ncond < 3 else C(True)
+                effs.append({"kind": "assign", "f": fresh_target(), "v": C(r.random() < 0.55), "c": c, "forall": []})
+            elif kind == "dropeff":
+                if len(effs) > 1:
+                    effs.pop(r.randrange(len(effs)))
+            elif kind == "cond":
+                e = r.choice(effs)
+                if e["c"]["op"] != "const":
+                    e["c"] = C(True) if r.random() < 0.3 else a_cond()
+                elif ncond < 3:
+                    e["c"] = a_cond()
+            elif kind == "pre":
+                pre = act["pre"]
+                x = r.random()
+                if pre and x < 0.5:
+                    c = r.choice(pre)
+                    if c["op"] in ("or", "and"):  # another disjunct / conjunct
+                        c["args"][r.randrange(len(c["args"]))] = self.bexpr(agent, terms, 0, pdis=pdis)
+                    else:
+                        pre[pre.index(c)] = self.bexpr(agent, terms, r.choice([1, 2]), pdis=pdis)
+                elif pre and x < 0.7:
+                    pre.pop(r.randrange(len(pre)))
+                elif len(pre) < 3:
+                    pre.append(self.bexpr(agent, terms, r.choice([0, 1]), pdis=pdis))
+        return act
+
+    def branch_of(self, base):
+        """the unconditional action that takes one combination of `base`'s conditional effects (conditions as
+        preconditions), named like a fresh name derived from base's name"""
+        r = self.r
+        cond = [e for e in base["effects"] if e["c"]["op"] != "const"]
+        if not cond:
+            return None
+        act = copy.deepcopy(base)
+        act["name"] = "%s_%d" % (base["name"], r.choice([0, 0, 1]))
+        act["effects"] = []
+        for e in copy.deepcopy(base["effects"]):
+            if e["c"]["op"] == "const":
+                act["effects"].append(e)
+            elif r.random() < 0.5:
+                act["pre"].append(e["c"])
+                e["c"] = C(True)
+                act["effects"].append(e)
+            else:
+                act["pre"].append(self.neg(e["c"]))
+        return act if act["effects"] else None
 
 
 # ----------------------------------------------------------------------------------------
@@ -485,6 +645,7 @@ def _site(ex):
 
 
 EMPTY_M = {"name": "", "types": [], "objects": [], "env": [], "agents": [], "goals": []}
+EMPTY_A = {"name": "", "kind": "inst", "params": [], "pre": [], "effects": [], "conds": [], "dur": upj.NONE, "sim": False}
 
 
 _TAINTED = False  # this process saw an asynchronous ImplTimeout inside library code: its global state is suspect
@@ -557,11 +718,16 @@ def compile_one(job):
                     em = q.environment.expression_manager
                     ai = ActionInstance(qa, tuple(em.ObjectExp(q.object(x["o"])) for x in g["args"]), ag)
                     b = res.map_back_action_instance(ai)
-                    row = {"qa": g["agent"] + SEP + g["a"], "qargs": g["args"], "pa": "", "pargs": []}
+                    # pag / pact: WHICH action object the instance maps back to -- the agent of the returned
+                    # instance and the structure of the returned action (two agents may own different actions
+                    # of one name; the name alone does not identify the action)
+                    row = {"qa": g["agent"] + SEP + g["a"], "qargs": g["args"], "pa": "", "pargs": [], "pag": "", "pact": EMPTY_A}
                     if b is not None:
                         bag = b.agent.name if b.agent is not None else "?"
                         row["pa"] = bag + SEP + b.action.name
                         row["pargs"] = [upj.p_const(x) for x in b.actual_parameters]
+                        row["pag"] = bag
+                        row["pact"] = p_action_ma(b.action)
                     rec["back"].append(row)
         except ImplTimeout:
             _TAINTED = True
@@ -596,6 +762,12 @@ def features(D):
     for g in D["goals"]:
         if any(n["op"] in DISJ for n in _walk(g)):
             fs.add("disjgoal")
+    byname = {}
+    for a in D["agents"]:
+        for act in a["actions"]:
+            byname.setdefault(act["name"], []).append(act)
+    if any(len(v) > 1 for v in byname.values()):
+        fs.add("samename")
     ftype = {}
     for f in D["env"]:
         ftype[f["name"]] = f["type"]["k"]
@@ -622,6 +794,7 @@ def features(D):
 RELEVANT = {
     "dangling-fluent-in-compiled-action": ["agents>1", "disjgoal"],
     "dangling-fluent-in-compiled-goal": ["disjgoal"],
+    "variant-maps-back-to-foreign-action": ["samename"],
 }
 
 
@@ -690,6 +863,17 @@ def run(ctx):
             cid += 1
             g = gens[1] if i % 4 == 3 else gens[0]
             jobs.append((cid, g.problem(), cname))
+    # after the independent corpus (unchanged by this addition): name collisions between agents, small problems
+    nsib = 12 if q else 45
+    if os.environ.get("C37_SIB"):  # development knob
+        nsib = int(os.environ["C37_SIB"])
+    sib_ids = set()
+    for cname in COMPILERS:
+        g = MAGen(ctx.rng, cname, max_ground=6 if cname == "cerm" else 5, objfluent=0.0)
+        for i in range(nsib):
+            cid += 1
+            sib_ids.add(cid)
+            jobs.append((cid, g.problem(sibling=True), cname))
     recs = compile_all(jobs)
     stats = {c: {"generated": 0, "skipped": 0, "raised": 0, "judged": 0, "too-big": 0} for c in COMPILERS}
     batch = []
@@ -767,6 +951,20 @@ def run(ctx):
     ctx.cov["distinct_nontrivial"] = sum(1 for r in judged if split(r) or len(r["qkeys"]) > len(r["pkeys"]))
     ctx.cov["with_split_actions"] = nsplit
     ctx.cov["with_auxiliary_fluents"] = naux
+
+    def samename(r, equal):  # two agents own an action of one name with equal / different definitions (structure of MP)
+        seen = {}
+        for a in r["MP"]["agents"]:
+            for act in a["actions"]:
+                seen.setdefault(act["name"], []).append(act)
+        return any(len(v) > 1 and (all(x == v[0] for x in v) == equal) for v in seen.values())
+
+    nsame = {c: {"different": sum(1 for r in judged if r["comp"] == c and samename(r, False)),
+                 "equal": sum(1 for r in judged if r["comp"] == c and samename(r, True))} for c in COMPILERS}
+    ctx.cov["same_named_actions_in_two_agents"] = nsame
+    ctx.cov["sibling_corpus"] = sum(1 for r in judged if r["cid"] in sib_ids)
+    if min(v["different"] for v in nsame.values()) == 0:
+        raise MachineryError("vacuous corpus: no two agents with same-named, differently defined actions: %r" % nsame)
     # vacuity: the run must contain split actions for both removers and the fake-goal mechanism
     if min(nsplit.values()) == 0 or naux == 0:
         raise MachineryError("vacuous corpus: split actions per compiler %r, compilations with auxiliary fluents %d" % (nsplit, naux))
@@ -776,8 +974,11 @@ def run(ctx):
         "the real MA remover; one evaluation = one (state, compiled ground action) pair: ALL total states over the compiled "
         "problem's ground fluents (<= %d per compilation; all of them, generated by TLC as the successors of one root state per "
         "compilation, not only the reachable ones) are judged by MASem!Verdict; "
-        "non-trivial = the compilation split some action into several variants or introduced auxiliary fluents."
-        % (per, maxg, cap_states)
+        "non-trivial = the compilation split some action into several variants or introduced auxiliary fluents.  "
+        "Plus per compiler %d 'sibling' problems (<= 6 / 5 ground fluents): the agents own same-named actions that are "
+        "near-copies of each other, and unconditional actions that are one branch of the other agent's conditional action "
+        "under a fresh-looking name; the map-back table records which action OBJECT (structure) each variant maps back to."
+        % (per, maxg, cap_states, nsib)
     )
     ex = next((r for r in judged if len(r["back"]) > 4), judged[0])
     ctx.sample({"compiler": ex["comp"], "original_agents": [{"name": a["name"], "fluents": [f["name"] for f in a["fluents"]],
@@ -859,6 +1060,18 @@ def selftest(ctx):
             row = next(b for b in r["back"] if b["pa"])
             row["pa"] = row["pa"] + "_missing"
         variant(base, "variant-maps-back-to-unknown-action", wrong_back)
+
+        def foreign_back(r):  # right name, but not the definition of the action this agent owns
+            row = next(b for b in r["back"] if b["pa"])
+            row["pact"] = copy.deepcopy(row["pact"])
+            row["pact"]["pre"] = row["pact"]["pre"] + [C(True)]
+        variant(base, "variant-maps-back-to-foreign-action", foreign_back)
+
+        def foreign_agent(r):  # the returned instance belongs to the other agent, which owns no such action object
+            row = next(b for b in r["back"] if b["pa"])
+            row["pag"] = next(a["name"] for a in r["MP"]["agents"] if row["pact"] not in a["actions"]) if any(
+                row["pact"] not in a["actions"] for a in r["MP"]["agents"]) else "nobody"
+        variant(base, "variant-maps-back-to-foreign-action", foreign_agent)
 
         def flip_init(r):
             i = next(i for i, k in enumerate(r["qkeys"]) if k in r["pkeys"] and r["qinit"][i]["k"] == "b")
